@@ -286,6 +286,7 @@ impl Engine for C13 {
             mega_1_in: 0,
             twin_mega_1_in: 0,
             many_1_in: 1500,
+            overflow_top_w: 1,
         };
         let mut records = g.gen(rng);
         while records.len() < batch {
